@@ -16,11 +16,12 @@ from ..model.curves import WCurve
 LEVEL = "exploration"
 RULE = ("for BN_P256, SM9_P256 (asan256) and B12_P381 (asan381): points [a]G1, [b]G2 computed by the models for a, b in "
         "{0, 1, 2, r-1, r, r+1, small, negative, random} (pool refreshed with fresh random scalars), written raw as affine "
-        "points or as projective points with random Z, identities as all-zero or z = 0 with junk x,y; each of pc_map, "
+        "points, as homogeneous projective (tag PROJC) or as Jacobian (tag JACOB) points with random Z in every argument and "
+        "every slot of the multi-pairings, identities as all-zero or z = 0 with junk x,y; each of pc_map, "
         "pp_map_{oatep,tatep,weilp}_k12 is compared with (library e(G1,G2))^(ab mod r) computed in the model tower; "
         "multi-pairings pc_map_sim / pp_map_sim_*_k12 with m = 0..8 pairs and identities at slot 0 / later slots / all slots "
         "are compared with e(G1,G2)^(sum a_i b_i); e(G1,G2) != 1 and e(G1,G2)^r = 1 by model exponentiation; final "
-        "exponentiation: order, multiplicativity and the documented power.  A case is non-trivial when no argument is the "
+        "exponentiation: order and multiplicativity (its relation to the documented power is recorded, not judged).  A case is non-trivial when no argument is the "
         "identity; distinct = distinct (function, scalars, representations)")
 ASSUMPTIONS = [
     "Python integers; verif/model/curves.py (affine chord-tangent law over any model field) and verif/model/tower.py",
@@ -29,7 +30,8 @@ ASSUMPTIONS = [
     "generators lie on their curves and are annihilated by r (parameter consistency itself is C18)",
     "the twist type of each family is the one set by RT.pairing_set (ep2_curve_set_twist)",
     "the pairing routines normalise their arguments themselves (ep_norm/ep2_norm in every pp_map_*_k12), so projective "
-    "arguments in the coordinate system of the build are in their domain",
+    "arguments in either projective system (the tag of the point selects the formula in ep_norm/ep2_norm, whatever EP_ADD the "
+    "build uses) are in their domain",
 ]
 
 SINGLE = ["pc_map", "pp_map_oatep_k12", "pp_map_tatep_k12", "pp_map_weilp_k12"]
@@ -104,50 +106,50 @@ class World(object):
         return x, y, z, R.rd_int(Q + K["off_ep2_st_coord"])
 
     def put1(self, ptr, pt, rep):
-        """G1 point (model affine tuple or None) in representation rep -> description"""
+        """G1 point (model affine tuple or None) written raw in representation rep: 'aff', 'proj' (X = xZ, Y = yZ, tag
+        PROJC) or 'jac' (X = xZ^2, Y = yZ^3, tag JACOB), random Z != 0.  ep_norm dispatches on the tag of the point, so
+        both projective systems are in the domain of every build."""
         R, K, rng, p = self.R, self.K, self.rng, self.p
+        tag = {"aff": K["BASIC"], "proj": K["PROJC"], "jac": K["JACOB"]}[rep]
         if pt is None:
-            if rep == "proj" and self.system != "basic":
-                R.ep_put(ptr, rng.randrange(p), rng.randrange(p), 0, K["PROJC"] if self.system == "projc" else K["JACOB"])
+            if rep != "aff":
+                R.ep_put(ptr, rng.randrange(p), rng.randrange(p), 0, tag)     # z = 0 with junk x, y
                 return "O-junk"
-            R.ep_put(ptr, 0, 0, 0, K["BASIC"])
+            R.ep_put(ptr, 0, 0, 0, tag)
             return "O"
         x, y = pt
-        if rep == "proj" and self.system != "basic":
-            z = rng.randrange(1, p)
-            if self.system == "projc":
-                R.ep_put(ptr, x * z % p, y * z % p, z, K["PROJC"])
-            else:
-                R.ep_put(ptr, x * z * z % p, y * z * z * z % p, z, K["JACOB"])
-            return "proj"
-        R.ep_put(ptr, x, y, 1, K["BASIC"])
-        return "aff"
+        if rep == "aff":
+            R.ep_put(ptr, x, y, 1, tag)
+            return rep
+        z = rng.randrange(1, p)
+        if rep == "proj":
+            R.ep_put(ptr, x * z % p, y * z % p, z, tag)
+        else:
+            R.ep_put(ptr, x * z * z % p, y * z * z * z % p, z, tag)
+        return rep
 
     def put2(self, ptr, pt, rep):
+        """G2 point on the twist, same three representations with Z in Fp2*"""
         R, K, rng, F2 = self.R, self.K, self.rng, self.F2
         ox, oy, oz, oc = K["off_ep2_st_x"], K["off_ep2_st_y"], K["off_ep2_st_z"], K["off_ep2_st_coord"]
-        tag = K["BASIC"]
+        tag = {"aff": K["BASIC"], "proj": K["PROJC"], "jac": K["JACOB"]}[rep]
         if pt is None:
-            if rep == "proj" and self.system != "basic":
-                x, y, z = F2.rand(rng), F2.rand(rng), (0, 0)
-                tag = K["PROJC"] if self.system == "projc" else K["JACOB"]
-                d = "O-junk"
+            if rep != "aff":
+                x, y, z, d = F2.rand(rng), F2.rand(rng), (0, 0), "O-junk"
             else:
                 x, y, z, d = (0, 0), (0, 0), (0, 0), "O"
-        elif rep == "proj" and self.system != "basic":
+        elif rep == "aff":
+            x, y, z, d = pt[0], pt[1], F2.one, rep
+        else:
             z = F2.rand(rng)
             if F2.is_zero(z):
                 z = F2.one
-            if self.system == "projc":
+            if rep == "proj":
                 x, y = F2.mul(pt[0], z), F2.mul(pt[1], z)
-                tag = K["PROJC"]
             else:
                 z2 = F2.mul(z, z)
                 x, y = F2.mul(pt[0], z2), F2.mul(pt[1], F2.mul(z2, z))
-                tag = K["JACOB"]
-            d = "proj"
-        else:
-            x, y, z, d = pt[0], pt[1], F2.one, "aff"
+            d = rep
         R.fpx_put(ptr + ox, list(x))
         R.fpx_put(ptr + oy, list(y))
         R.fpx_put(ptr + oz, list(z))
@@ -194,6 +196,7 @@ def scalar(rng, r, cls):
     return rng.randrange(1, r)
 
 
+REPS = ["aff", "proj", "jac"]      # representations of every argument / slot
 SCLS = ["0", "1", "2", "r-1", "r", "r+1", "small", "neg", "negbig", "2r+", "rnd", "rnd", "rnd"]
 
 
@@ -308,7 +311,7 @@ def run(ctx, part):
             ctx.end()
 
     # ---------------------------------------------------------------- one multi-pairing case
-    def sim_case(fn, m, want):
+    def sim_case(fn, m, want, reps=None):
         """want: identity placement none | slot0 | later | all"""
         base = SIM[fn]
         ids1 = [i for i, e in enumerate(pool1) if e[2] is None]
@@ -338,7 +341,7 @@ def run(ctx, part):
         flags = [f for _, _, f in pairs]
         kind = idkind(flags) if m else "none"
         key = "%s|sim|m%d|id-%s" % (fn, m, kind)
-        reps = [(rng.choice(["aff", "aff", "proj"]), rng.choice(["aff", "aff", "proj"])) for _ in range(m)]
+        reps = reps or [(rng.choice(REPS), rng.choice(REPS)) for _ in range(m)]
         desc = {"set": part, "m": m, "pairs": [[hx(pool1[i][1]), hx(pool2[j][1])] for i, j, _ in pairs], "reps": reps}
         tok = "m%d" % m
         try:
@@ -377,7 +380,26 @@ def run(ctx, part):
             for (a, b) in ((i, SCLS.index("rnd")), (SCLS.index("rnd"), i), (i, i)):
                 n += 1
                 if ctx.mine(n) and (fn == "pc_map" or (a + b) % 3 == 0 or pool1[a][2] is None or pool2[b][2] is None):
-                    single_case(fn, a, b, rng.choice(["aff", "proj"]), rng.choice(["aff", "proj"]))
+                    single_case(fn, a, b, rng.choice(REPS), rng.choice(REPS))
+    # every pair of representations for every single routine, and each representation in every slot of the multi-pairings
+    gi, gj = SCLS.index("rnd"), SCLS.index("small")
+    for fn in singles:
+        for r1 in REPS:
+            for r2 in REPS:
+                n += 1
+                if ctx.mine(n):
+                    single_case(fn, gi, gj, r1, r2)
+    for fn in sims:
+        for r1 in REPS:
+            for r2 in REPS:
+                if r1 == r2 == "aff":
+                    continue
+                for slot in range(3):
+                    n += 1
+                    if ctx.mine(n):
+                        rr = [("aff", "aff")] * 3
+                        rr[slot] = (r1, r2)
+                        sim_case(fn, 3, "none", reps=rr)
     for fn in sims:
         for m in range(0, MAXM + 1):
             for want in ("none", "slot0", "later", "all"):
@@ -401,7 +423,7 @@ def run(ctx, part):
         if rng.random() < 0.55 or not sims:
             fn = rng.choices(singles, ws)[0]
             single_case(fn, rng.randrange(len(pool1)), rng.randrange(len(pool2)),
-                        rng.choice(["aff", "proj"]), rng.choice(["aff", "proj"]))
+                        rng.choice(REPS), rng.choice(REPS))
         else:
             fn = rng.choices(sims, wm)[0]
             m = rng.choice([0, 1, 2, 2, 3, 3, 4, 5, 6, 7, 8])
@@ -433,8 +455,12 @@ def run(ctx, part):
                 ctx.check(F12.eq(F12.pow(vx, r), F12.one) and not F12.eq(vx, F12.one), "pp_exp_k12|random|order-r" + tag)
                 if it == 0 and ctx.shard == 0:
                     # documented: c = a^((p^12 - 1)/r)
+                    # not part of the property (bilinearity does not depend on it): observation only
                     doc = F12.pow(x, (p ** 12 - 1) // r)
-                    ctx.check(F12.eq(doc, vx), "pp_exp_k12|random|documented-power" + tag)
+                    rel = "equal to the documented a^((p^12-1)/r)" if F12.eq(doc, vx) else (
+                        "the documented power cubed" if F12.eq(F12.pow(doc, 3), vx) else
+                        "a fixed power of the documented a^((p^12-1)/r) other than 1 and 3 (order r, multiplicative)")
+                    ctx.note("pp_exp_k12_observed_power_" + part, rel)
             except MonitorViolation as e:
                 ctx.fail("pp_exp_k12|random|" + e.kind, e.detail)
             finally:
